@@ -262,6 +262,10 @@ def skeleton(u, repo):
 
 def run_unit(unit_mod, prop, repo, verif, workdir, tier, log):
     """verify the `prop` view of one unit; returns StageResult"""
+    # "unit@Cxx": the unit is rendered in the view of property Cxx (its clauses carry that tag) while deciding `prop`
+    view_prop = prop
+    if "@" in unit_mod:
+        unit_mod, view_prop = unit_mod.split("@", 1)
     mod = importlib.import_module("contracts." + unit_mod)
     st = StageResult(f"verus:{unit_mod}[{prop}]", "verus+z3")
     t0 = time.time()
@@ -274,7 +278,7 @@ def run_unit(unit_mod, prop, repo, verif, workdir, tier, log):
         return st
     rlimit = getattr(mod, "RLIMIT", 60)
     st.details["skeleton"] = skeleton(u, repo)
-    lost = [h for it in u.items for h in it.hints_lost if (h.get("tags") is None or prop in h["tags"])]
+    lost = [h for it in u.items for h in it.hints_lost if (h.get("tags") is None or view_prop in h["tags"])]
     degraded = bool(lost)
     disabled = set()
     dropped_hints = []
@@ -283,7 +287,7 @@ def run_unit(unit_mod, prop, repo, verif, workdir, tier, log):
     text = org = None
     while True:
         attempts += 1
-        text, org = u.render(disabled=frozenset(disabled), view=prop)
+        text, org = u.render(disabled=frozenset(disabled), view=view_prop)
         path = os.path.join(workdir, f"{unit_mod}_{prop}_{attempts}.rs")
         open(path, "w").write(text)
         res = run_verus(path, rlimit=rlimit)
@@ -314,7 +318,7 @@ def run_unit(unit_mod, prop, repo, verif, workdir, tier, log):
         "theorems": u.theorems,
         "items": [{"file": it.relpath, "anchor": it.anchor, "line": it.first_line, "sha256": it.sha} for it in u.items],
         "rules_applied": [r for it in u.items for r in it.rules_applied],
-        "clauses": [c for it in u.items for c in it.clauses if c["kind"] != "canary" and (c["tags"] is None or prop in c["tags"])],
+        "clauses": [c for it in u.items for c in it.clauses if c["kind"] != "canary" and (c["tags"] is None or view_prop in c["tags"])],
         "assumption_scan": scan_assumptions(text, org),
     })
     st.obligations = res.verified + res.errors
@@ -337,7 +341,7 @@ def run_unit(unit_mod, prop, repo, verif, workdir, tier, log):
 
     # ---- canaries (vacuity guard) --------------------------------------------------------------
     if not st.failures and not st.undecided:
-        ctext, corg = u.render(disabled=frozenset(disabled), canaries=True, view=prop)
+        ctext, corg = u.render(disabled=frozenset(disabled), canaries=True, view=view_prop)
         expected = []
         for o in corg:
             if o and o[0] == "clause" and o[2] == "canary" and o[1] not in expected:
@@ -357,7 +361,7 @@ def run_unit(unit_mod, prop, repo, verif, workdir, tier, log):
         for c in missing:
             # a canary hidden behind another failure in the same query: run it alone
             others = frozenset(x for x in expected if x != c) | frozenset(disabled)
-            t1, o1 = u.render(disabled=others, canaries=True, view=prop)
+            t1, o1 = u.render(disabled=others, canaries=True, view=view_prop)
             p1 = os.path.join(workdir, f"{unit_mod}_{prop}_canary_{len(still)}.rs")
             open(p1, "w").write(t1)
             r1 = run_verus(p1, rlimit=rlimit, multiple_errors=2)
